@@ -241,7 +241,9 @@ func (p *Prog) RepoFuncs() []*ssa.Function {
 			out = append(out, fn)
 		}
 	}
-	sort.Slice(out, func(i, j int) bool { return p.posLess(out[i].Pos(), out[j].Pos()) || (out[i].Pos() == out[j].Pos() && out[i].String() < out[j].String()) })
+	sort.Slice(out, func(i, j int) bool {
+		return p.posLess(out[i].Pos(), out[j].Pos()) || (out[i].Pos() == out[j].Pos() && out[i].String() < out[j].String())
+	})
 	return out
 }
 
